@@ -75,6 +75,7 @@ type Config struct {
 		Select []string   `json:"select"`
 		Mutex  []string   `json:"mutex"`
 		Stmt   []StmtSpec `json:"stmt"`
+		Cases  []StmtSpec `json:"cases"`
 	} `json:"vinst"`
 }
 
@@ -256,6 +257,9 @@ func buildScratch(cfg Config) string {
 	}
 	for _, s := range cfg.Vinst.Stmt {
 		args = append(args, "stmt:"+s.File+":"+strings.Join(s.Funcs, ","))
+	}
+	for _, s := range cfg.Vinst.Cases {
+		args = append(args, "cases:"+s.File+":"+strings.Join(s.Funcs, ","))
 	}
 	if len(args) > 0 {
 		out, err := run(srepo, os.Environ(), vinst, args...)
